@@ -31,7 +31,7 @@ def run(ctx):
     bad = ctx.tlc_check("EventPipeline", ctx.write_cfg("EventPipeline.swap.cfg", R1 % (2, 1, 1, "TRUE")), label="backend wait before cloud wait (must fail)", must_pass=False)
     if bad.violated != "MonitorQuiet":
         raise vlib.MachineryError("vacuity: swapped wait order not refuted")
-    plans = [("bfs3", 3, None, None), ("sim8", 8, "num=400", 9)] if quick else [("bfs4", 4, None, None), ("sim10", 10, "num=30000", 11)]
+    plans = [("bfs3", 3, None, None), ("sim8", 8, "num=400", 9)] if quick else [("bfs4", 4, None, None), ("sim10", 10, "num=3000", 11)]
     named = {}
     for label, ml, sim, depth in plans:
         cfg = ctx.write_cfg("EventSched.%s.cfg" % label, SCHED % ml)
@@ -45,7 +45,7 @@ def run(ctx):
         if rc != 0 or not os.path.exists(out):
             sig = vlib.crash_attribution(txt)
             if sig:
-                ctx.violation("crash:" + sig, ctx.save_replay("crash", {"output": txt[-6000:]}), "the event path crashed inside gostatsd: " + sig)
+                ctx.violation("crash:" + sig[0], ctx.save_replay("crash", {"output": sig[1]}), "the event path crashed inside gostatsd: " + sig[0])
                 return
             raise vlib.MachineryError("harness c19 failed (rc=%d)\n%s" % (rc, txt[-3000:]))
         os.unlink(cases)
